@@ -8,7 +8,13 @@ Open Scope Z_scope.
 
 (** finite map from variable numbers (>= 0) to terms: a binary trie on the key *)
 Definition env := PositiveMap.t term.
-Definition key (v : Z) : positive := Z.to_pos (v + 2).      (* key 1 is reserved, see [poisoned] *)
+(** an injection of variable numbers into trie keys; key 1 is reserved, see [poisoned] *)
+Definition key (v : Z) : positive :=
+  match v with
+  | Z0 => 2%positive
+  | Zpos p => xO (Pos.succ p)
+  | Zneg p => xI p
+  end.
 Definition empty_env : env := PositiveMap.empty term.
 Definition lookup (e : env) (v : Z) : option term := PositiveMap.find (key v) e.
 Definition bind (e : env) (v : Z) (t : term) : env := PositiveMap.add (key v) t e.
@@ -63,14 +69,19 @@ Fixpoint unify_f (fuel : nat) (oc : bool) (e : env) (x y : term) : ures :=
       let y := resolve e y in
       match x with
       | Var vx =>
+          (* resolve returns an unbound variable unless its own fuel ran out *)
+          match lookup e vx with Some _ => UStuck | None =>
           match y with
-          | Var vy => if Z.eqb vx vy then UOk e else UOk (bind e vx y)
+          | Var vy => if Z.eqb vx vy then UOk e
+                      else match lookup e vy with Some _ => UStuck | None => UOk (bind e vx y) end
           | Cmp _ _ => if contains_f fuel e y vx then (if oc then UFail else UOk (poison e)) else UOk (bind e vx y)
           | _ => UOk (bind e vx y)
           end
+          end
       | Cmp fx xs =>
           match y with
-          | Var vy => if contains_f fuel e x vy then (if oc then UFail else UOk (poison e)) else UOk (bind e vy x)
+          | Var vy => match lookup e vy with Some _ => UStuck | None =>
+                      if contains_f fuel e x vy then (if oc then UFail else UOk (poison e)) else UOk (bind e vy x) end
           | Cmp fy ys =>
               if negb (String.eqb fx fy) then UFail
               else if negb (Nat.eqb (List.length xs) (List.length ys)) then UFail
@@ -78,7 +89,7 @@ Fixpoint unify_f (fuel : nat) (oc : bool) (e : env) (x y : term) : ures :=
                       match l1, l2 with
                       | a :: l1', b :: l2' =>
                           match unify_f f oc e a b with
-                          | UOk e' => go e' l1' l2'
+                          | UOk e' => if poisoned e' then UOk e' (* left the model's domain: stop *) else go e' l1' l2'
                           | r => r
                           end
                       | _, _ => UOk e
@@ -87,7 +98,7 @@ Fixpoint unify_f (fuel : nat) (oc : bool) (e : env) (x y : term) : ures :=
           end
       | _ =>
           match y with
-          | Var vy => UOk (bind e vy x)    (* atomic: nothing can occur *)
+          | Var vy => match lookup e vy with Some _ => UStuck | None => UOk (bind e vy x) end   (* atomic: nothing can occur *)
           | _ => if term_eqb x y then UOk e else UFail
           end
       end
